@@ -114,7 +114,7 @@ def one_nfa(acc, spec, L, scheme='s', eps='', enc='sparse', closures=True, lette
     check_nfa(acc, spec, L, scheme, eps, enc, closures, letters=letters)
 
 
-def t_morph(acc, kind, space, L, shard, nshard, upto=None):
+def t_morph(acc, kind, space, L, shard, nshard, upto=None, enc='sparse'):
     """One live object rewritten in place for every instance of the shard (in enumeration order).  With `upto` the
     walk stops after that instance: this is how a counterexample of this layer is replayed."""
     def tup(x):
@@ -122,7 +122,7 @@ def t_morph(acc, kind, space, L, shard, nshard, upto=None):
     upto = tup(upto) if upto is not None else None
     space = tup(space)
     spaces._LIVE.clear()
-    acc.data['ctx'] = {'kind': kind, 'space': space, 'L': L, 'shard': shard, 'nshard': nshard}
+    acc.data['ctx'] = {'kind': kind, 'space': space, 'L': L, 'shard': shard, 'nshard': nshard, 'enc': enc}
     if kind == 'dfa':
         for idx in range(shard, spaces.dfa_size(*space), nshard):
             spec = spaces.dfa_spec(space[0], space[1], idx)
@@ -131,7 +131,7 @@ def t_morph(acc, kind, space, L, shard, nshard, upto=None):
                 break
     else:
         for idx, spec in spaces.shard(_nfa_space(space), shard, nshard):
-            check_nfa(acc, spec, L, closures=True, morph=True)
+            check_nfa(acc, spec, L, enc=enc, closures=True, morph=True)
             if spec == upto:
                 break
     acc.data.clear()
@@ -214,6 +214,8 @@ def _nfa_space(name):
         return spaces.nfa_chains(name[1])
     if kind == 'rot':
         return spaces.nfa_rotations(name[1])
+    if kind == 'star':
+        return spaces.star13_family(name[1])
     raise ValueError(name)
 
 
@@ -269,6 +271,9 @@ def plan(tier, seed):
         tasks.append(('plain', 'mc.props.c01:t_morph', {'kind': 'nfa', 'space': ('nfa', 2, 1, None, False), 'L': 3, 'shard': s_, 'nshard': 4}))
         tasks.append(('plain', 'mc.props.c01:t_morph', {'kind': 'nfa', 'space': ('nfa', 2, 2, 3, False), 'L': 3, 'shard': s_, 'nshard': 4}))
         tasks.append(('plain', 'mc.props.c01:t_morph', {'kind': 'nfa', 'space': ('nfa', 3, 1, 3, False), 'L': 3, 'shard': s_, 'nshard': 4}))
+        # a delta defined on all of Q x (Sigma + eps): the key set never changes, every other rewrite changes the target sets in place
+        tasks.append(('plain', 'mc.props.c01:t_morph', {'kind': 'nfa', 'space': ('nfa', 2, 1, None, False), 'L': 3, 'shard': s_, 'nshard': 4, 'enc': 'total'}))
+        tasks.append(('plain', 'mc.props.c01:t_morph', {'kind': 'nfa', 'space': ('nfa', 3, 1, 3, False), 'L': 3, 'shard': s_, 'nshard': 4, 'enc': 'total'}))
     for (n, k) in ((1, 0), (2, 0), (1, 1), (1, 2), (2, 1), (2, 2)):
         dfa(n, k, 8)
     dfa(3, 1, 6)
@@ -289,11 +294,12 @@ def plan(tier, seed):
     nfa(('rot', 6), 7, SPARSE, 2, closures=False)
     # wave 5: further presentations of the small spaces
     tasks.insert(0, ('plain', 'mc.props.c01:t_deep', {'n': 1300 if tier == 'quick' else 2600}))
-    EXTRA = [('s', 'ba', 'sparse'), ('s', 'eps', 'sparse', 'eps'), ('u', '', 'sparse', 'gr'), ('g', '_', 'sparse'), ('K', 'ε', 'sparse')]
+    EXTRA = [('s', 'ba', 'sparse'), ('s', 'eps', 'sparse', 'eps'), ('u', '', 'sparse', 'gr'), ('g', '_', 'sparse'), ('K', 'ε', 'sparse'), ('n', '', 'sparse', 'nf'), ('b', '_', 'sparse')]
     nfa(('nfa', 1, 2, None, False), 4, EXTRA, 1)
     nfa(('nfa', 2, 1, None, False), 4, EXTRA, 4)
     nfa(('nfa', 2, 2, 3, False), 3, EXTRA[:3], 8)
     nfa(('nfa', 3, 1, 3, False), 3, EXTRA[2:], 4)
+    nfa(('star', 13), 2, SPARSE, 2, closures=False)
     nfa(('nfa', 1, 5, None, False), 2, [('s', '', 'sparse', 'w')], 1)
     nfa(('nfa', 1, 7, None, False), 1, [('s', '', 'sparse', 'w')], 1)
     nfa(('nfa', 2, 5, 2, False), 2, [('s', '', 'sparse', 'w'), ('s', '_', 'total', 'w')], 4)
